@@ -10,7 +10,7 @@ from contextvars import ContextVar
 from typing import Any, Dict, List, Optional, Tuple, Type, Union
 
 from ._common import Action, is_subclass, parser_context
-from ._loaders_dumpers import get_loader_exceptions, load_value
+from ._loaders_dumpers import get_loader_exceptions, json_or_yaml_loader_exceptions, load_value
 from ._namespace import Namespace, NSKeyError, split_key, split_key_root
 from ._optionals import get_config_read_mode
 from ._type_checking import ActionsContainer, ArgumentParser
@@ -287,7 +287,11 @@ class _ActionPrintConfig(Action):
             if key is not None:
                 cfg = cfg[key]
             with parser_context(lenient_check=True):
-                sys.stdout.write(subparser.dump(cfg, **parser.print_config))
+                try:
+                    cfg_str = subparser.dump(cfg, **parser.print_config)
+                except (ValueError,) + json_or_yaml_loader_exceptions as ex:  # incl. the dumper's YAMLError
+                    raise TypeError(f"Unable to print the config: {ex}") from ex
+                sys.stdout.write(cfg_str)
             delattr(parser, "print_config")
             parser.exit()
 
